@@ -57,6 +57,11 @@ ProfMath == [Base EXCEPT !.methods = {"pt"}, !.consts = {<<"int", 2, 1>>, <<"int
                !.binops = {"+"}, !.cmpops = {">"}, !.math = DocumentedMath, !.select = FALSE, !.where = FALSE,
                !.rows = {"bool"}, !.colls = {}, !.start = "perobj"]
 
+\* C12, third profile: math functions whose ARGUMENTS open a deeper block of the emitted code (a First()), at event level,
+\* standalone, inside arithmetic on either side, nested, and as one column of several
+ProfMathFirst == [Base EXCEPT !.methods = {"pt"}, !.consts = {<<"int", 2, 1>>}, !.binops = {"+"}, !.cmpops = {}, !.where = FALSE, !.select = FALSE,
+                    !.first = TRUE, !.math = {<<"sqrt", 1>>, <<"fabs", 1>>, <<"atan2", 2>>}, !.rows = {"tuple"}, !.must = {"Math", "First"}]
+
 \* C06: every collection of the backend in scope x banks (bk3 is in no event), singleton, declared collection
 AllBanks(cs) == {<<c, b>> : c \in cs, b \in {"bk1", "bk2", "bk3"}}
 ProfColl == [Base EXCEPT !.classes = {"A", "B", "T", "M", "I"}, !.methods = {"pt", "runNumber"}, !.aggs = {"Count"},
@@ -79,13 +84,13 @@ ProfUserFnE == [Base EXCEPT !.methods = {"pt"}, !.consts = {<<"int", 2, 1>>}, !.
 \* C10: the declared-signature space: object by value / pointer / double pointer, collection pointer,
 \* smart references with 1 and 2 extra dereferences, a declared tree type, an enum (output, comparison, argument)
 ProfTypes == [Base EXCEPT !.classes = {"A", "T", "R1", "R2"},
-                !.methods = {"pt", "q", "tv", "tpp", "trks", "link", "vals", "valsp", "tref", "trefref", "trefrefp", "trefpp", "code", "color"},
+                !.methods = {"pt", "q", "tv", "tpp", "trks", "link", "vals", "valsp", "tref", "trefref", "trefrefp", "trefpp", "code", "color", "isPFMuon"},
                 !.consts = {<<"int", 1, 1>>}, !.binops = {"+"}, !.aggs = {"Count", "Sum"}, !.first = TRUE, !.index = TRUE,
                 !.select = TRUE, !.where = FALSE, !.rows = {"bool"}, !.colls = {}, !.start = "perobj", !.enums = TRUE]
 
 \* C10, second profile: the same declared types as elements of vector columns (declared tree types must
 \* reach std::vector<...> columns too)
-ProfTypesVec == [Base EXCEPT !.classes = {"A", "T", "R1"}, !.methods = {"pt", "q", "tv", "trks", "vals", "valsp", "tref", "code", "color"},
+ProfTypesVec == [Base EXCEPT !.classes = {"A", "T", "R1"}, !.methods = {"pt", "q", "tv", "trks", "vals", "valsp", "tref", "code", "color", "isPFMuon"},
                    !.where = FALSE, !.rows = {"seq", "seqseq"}, !.enums = TRUE]
 
 \* C01, second profile: the func_adl idiom of carrying several collections through a tuple or a dict:
